@@ -169,6 +169,11 @@ def build_catalogue():
                     return (w,)
                 return mk, (lambda w: cls.check_and_correct(w))
             op(f"{cname}.check_and_correct", "inplace")(r)
+    # the same 16-bit word through the two codes of that length (they share the syndrome helper) and through the PDU that uses one of them
+    for wname, W in (("qr_codeword", "0001011101110100"), ("h16114_codeword", "1011001110010100")):
+        op(f"h16114.check_{wname}")(lambda W=W: ((lambda: (ba(W),)), (lambda w: Hamming16114.check(w))))
+        op(f"qr.check_{wname}")(lambda W=W: ((lambda: (ba(W),)), (lambda w: QuadraticResidue1676.check(w))))
+        op(f"emb.from_bits_{wname}", "parse")(lambda W=W: ((lambda: (ba(W),)), (lambda w: EmbeddedSignalling.from_bits(w))))
     op("fivebit.generate")(lambda: ((lambda: (ba(MSG_A[:72]),)), (lambda b: FiveBitChecksum.generate(b))))
 
     # ---- BPTC / VBPTC / trellis / RS -----------------------------------------------------------------------
